@@ -27,7 +27,7 @@ Script_3p1c == << <<E(11), E(12)>>, <<E(21)>>, <<E(31)>>, <<D, D, D>> >>
 Script_len  == << <<E(11), E(12), E(13)>>, <<D, L, D>>, <<L, D>> >>
 \* reservations: reserve, fill, publish / cancel (reverse order), with a consumer
 Script_resv == << <<R, R, F(2, 12), U(2), F(1, 11), P(1), R, F(1, 13), P(1)>>, <<D, D, D>> >>
-Script_resv2 == << <<R, F(1, 11), P(1), R, R, U(2), U(1), E(12)>>, <<D, D>> >>
+Script_resv2 == << <<R, F(1, 11), P(1), R, U(1), R, F(1, 12), P(1), E(13)>>, <<D, D, D>> >>
 
 \* pool allocator scripts (Prefill = TRUE): exhaust-and-refill from several threads
 Script_pool3 == << <<A, A, Fr, A, Fr, Fr>>, <<A, Fr, A, Fr>>, <<A, A, FrL, Fr>> >>
